@@ -22,7 +22,7 @@ import (
 
 func baseCfg(name string) *CfgA {
 	return &CfgA{Name: name, Val: 0, Vote: []sigSpec{{"A", 2}}, UpdateEvery: 1000000, Cooldown: 30, MinInterval: 60, MaxInterval: 120,
-		Grace: 30, DevBP: 50, Period: 3, Phase: 0, Lag: 2, Lat: []int{0, 2}, Menu: []string{"A", "Ahi-1", "Ahi", "UNAV", "MISS"}, MaxMiss: 2, Horizon: 130}
+		Grace: 30, DevBP: 50, Period: 3, Phase: 0, Lag: 2, Lat: []int{0, 2}, Menu: []string{"A", "Ahi-1", "Ahi", "UNAV", "UNSUP", "MISS"}, MaxMiss: 2, Horizon: 130}
 }
 
 func configsA(quick bool) []*CfgA {
@@ -38,13 +38,13 @@ func configsA(quick bool) []*CfgA {
 	add("i60-cd10-p1-lag0-pollfirst", func(c *CfgA) {
 		c.Val, c.Cooldown, c.Period, c.Lag, c.PollFirst = 1, 10, 1, 0, true
 		c.Lat = []int{0, 3}
-		c.Menu = []string{"A", "Ahi", "Adn", "UNSUP"}
+		c.Menu = []string{"A", "Ahi", "Adn", "UNAV"}
 		c.Horizon = 100
 	})
 	// interval 120 (vote power 1), header lag at the full buffer (3 s), third validator
 	add("i120-cd30-p3-lag3", func(c *CfgA) {
-		c.Val, c.Vote, c.Lag, c.Phase = 2, []sigSpec{{"A", 1}}, 3, 1
-		c.Lat = []int{1}
+		c.Val, c.Vote, c.Lag, c.Phase, c.PollFirst = 2, []sigSpec{{"A", 1}}, 3, 1, true
+		c.Lat = []int{0, 1}
 		c.Menu = []string{"A", "Ahi", "UNAV"}
 		c.Horizon = 220
 	})
@@ -77,25 +77,26 @@ func configsA(quick bool) []*CfgA {
 		c.Horizon = 70
 	})
 	if quick {
+		checkSlack(out)
 		return out
 	}
+	defer func() { checkSlack(out) }()
 	// thorough: full menus, more lags / latencies / phases, longer horizons
 	full := []string{"A", "Ahi-1", "Ahi", "Adn", "Adn+1", "UNAV", "UNSUP", "MISS"}
-	for _, lag := range []int{0, 1, 3, -2} {
-		for _, per := range []int{1, 2, 3} {
-			for _, cd := range []int64{10, 30} {
-				lag, per, cd := lag, per, cd
-				add(fmt.Sprintf("T-i60-cd%d-p%d-lag%d", cd, per, lag), func(c *CfgA) {
-					c.Val = (per + int(cd)) % 3
-					c.Cooldown, c.Period, c.Lag = cd, per, lag
-					c.Phase = per - 1
-					c.PollFirst = lag%2 == 0
-					c.Lat = []int{0, 1, 2, 4}
-					c.Menu = full
-					c.Horizon = 190
-				})
+	for i, t := range [][3]int{{10, 1, 0}, {30, 1, 3}, {10, 1, -2}, {30, 1, 1}, {30, 2, 1}, {10, 2, 3}, {30, 3, 0}, {10, 3, 3}, {30, 3, -2}} {
+		cd, per, lag, i := int64(t[0]), t[1], t[2], i
+		add(fmt.Sprintf("T-i60-cd%d-p%d-lag%d", cd, per, lag), func(c *CfgA) {
+			c.Val = i % 3
+			c.Cooldown, c.Period, c.Lag = cd, per, lag
+			c.Phase = i % per
+			c.PollFirst = i%2 == 1
+			c.Lat = []int{0, 1, 2, 4}
+			if per == 3 && lag < 0 {
+				c.Lat = []int{0, 1, 3} // keeps max-missing + latency + block period - lag within the 10 s the daemon leaves for UNAVAILABLE answers
 			}
-		}
+			c.Menu = full
+			c.Horizon = 190
+		})
 	}
 	add("T-i120-cd30-p3-lag2-full", func(c *CfgA) {
 		c.Val, c.Vote = 1, []sigSpec{{"A", 1}}
@@ -113,6 +114,24 @@ func configsA(quick bool) []*CfgA {
 	return out
 }
 
+// checkSlack: the environment alphabets must stay within the slack the statement assumes ("polling
+// period and broadcast latency smaller than the remaining slack"): an UNAVAILABLE answer is handed off
+// at most 10 s - 1 s poll before the deadline, so unanswered polls + latency + wait for the next block
+// + clock offset must fit into that.
+func checkSlack(cfgs []*CfgA) {
+	for _, c := range cfgs {
+		maxLat := 0
+		for _, d := range c.Lat {
+			if d > maxLat {
+				maxLat = d
+			}
+		}
+		if c.MaxMiss+maxLat+c.Period-c.Lag > 10 {
+			panic(fmt.Sprintf("c20: configuration %s leaves no slack (%d missing + %d s latency + %d s period - (%d) lag > 10)", c.Name, c.MaxMiss, maxLat, c.Period, c.Lag))
+		}
+	}
+}
+
 func scenariosB(quick bool) ([]ScB, []gosched.Bounds) {
 	one2 := ScB{Name: "one-submission-two-signals-1-client", Clients: 1, Polls: []string{"S1+S2"}, MaxTry: 2, Timeout: 2 * time.Second}
 	two := ScB{Name: "one-submission-2-clients", Clients: 2, Polls: []string{"S1"}, MaxTry: 2, Timeout: 2 * time.Second}
@@ -125,25 +144,33 @@ func scenariosB(quick bool) ([]ScB, []gosched.Bounds) {
 		scs = append(scs, sc)
 		bs = append(bs, gosched.Bounds{Preemptions: pre, Faults: faults})
 	}
+	conc := ScB{Name: "two-polls-back-to-back(S1,S2)", Clients: 1, Polls: []string{"S1", "S2"}, MaxTry: 1, Timeout: 2 * time.Second}
+	same := ScB{Name: "two-polls-1s-apart(S1,S1)", Clients: 1, Polls: []string{"S1", "S1"}, Sleep: true, MaxTry: 1, Timeout: 2 * time.Second}
+	sameB2B := ScB{Name: "two-polls-back-to-back(S1,S1)", Clients: 1, Polls: []string{"S1", "S1"}, MaxTry: 1, Timeout: 2 * time.Second}
 	if quick {
 		add(one2, 2, 2)
 		add(two, 1, 1)
 		add(two, 0, 2)
-		add(b2b, 1, 1)
-		add(b2b, 2, 0)
-		add(apart, 1, 1)
-		add(apart, 0, 2)
+		add(conc, 1, 0)
+		add(conc, 0, 1)
+		add(same, 1, 1)
+		add(same, 0, 2)
+		add(sameB2B, 2, 2)
+		add(b2b, 0, 1)
+		add(apart, 0, 1)
 		return scs, bs
 	}
 	add(one2, 3, 3)
 	add(two, 2, 1)
 	add(two, 1, 2)
-	add(b2b, 2, 1)
-	add(b2b, 1, 2)
-	add(apart, 2, 1)
+	add(conc, 1, 1)
+	add(conc, 0, 2)
+	add(same, 2, 2)
+	add(sameB2B, 3, 2)
+	add(b2b, 1, 1)
 	add(apart, 1, 2)
-	add(ScB{Name: "four-polls-two-keys-busy(S1,S2,S1,S2)", Clients: 1, Polls: []string{"S1", "S2", "S1", "S2"}, MaxTry: 2, Timeout: 2 * time.Second}, 1, 1)
-	add(ScB{Name: "two-polls-2-clients(S1,S2)", Clients: 2, Polls: []string{"S1", "S2"}, Sleep: true, MaxTry: 2, Timeout: 3 * time.Second}, 1, 1)
+	add(ScB{Name: "four-polls-two-keys-busy(S1,S2,S1,S2)", Clients: 1, Polls: []string{"S1", "S2", "S1", "S2"}, MaxTry: 2, Timeout: 2 * time.Second}, 0, 1)
+	add(ScB{Name: "two-polls-2-clients(S1,S2)", Clients: 2, Polls: []string{"S1", "S2"}, Sleep: true, MaxTry: 2, Timeout: 3 * time.Second}, 0, 1)
 	return scs, bs
 }
 
@@ -340,8 +367,8 @@ func init() {
 			if os.Getenv("VERIF_C20_ONLY") != "" {
 				r.Required = nil
 			}
-			dlA := r.Deadline(8*time.Minute, 40*time.Minute)
-			dlB := r.Deadline(14*time.Minute, 70*time.Minute)
+			dlA := r.Deadline(8*time.Minute, 25*time.Minute)
+			dlB := r.Deadline(16*time.Minute, 50*time.Minute)
 			if part != "b" {
 				execA(r, quick, dlA)
 			}
